@@ -132,7 +132,7 @@ class Engine:
         if kind == "beyond":
             return max(room, 0.0) + rng.choice([0.01, 0.25, 1.0, 1e-6 * max(room, 1.0), 1e-9, 100.0])
         if kind == "huge":
-            return rng.choice([1e300, 1e18, 7158279.0, 10**20, 2**64, 10**30])  # floats and Python integers beyond 64 bit
+            return rng.choice([1e300, 1e18, 7158279.0, 7158279.0, 8e6, 10**20, 2**64, 10**30])  # floats and Python integers beyond 64 bit
         if kind == "inf":
             return math.inf
         if kind == "nan":
